@@ -29,6 +29,8 @@ for d in dirs:
         var = {"a": "e", "b": "f"}[var]  # third wave (fault / interleaving / restart / clock triggered)
     if "/mut5/" in d:
         var = {"a": "i", "b": "j"}[var]  # fifth (small) wave: six properties, "something none of the earlier eight resembles"
+    if "/mut6/" in d:
+        var = {"a": "k", "b": "l"}[var]  # sixth wave (round 3): "resemble none of the earlier ideas: different code site AND different mechanism"
     if "/mut4/" in d:
         var = {"a": "g", "b": "h"}[var]  # fourth wave (less obvious sites: config merging, helpers, server layer, wiring)
     sid = prop + var
@@ -36,7 +38,10 @@ for d in dirs:
     if os.path.exists(os.path.join(dst, "meta.json")) and "--force" not in sys.argv:
         continue
     meta = json.load(open(os.path.join(d, "meta.json")))
-    v = seedtool.verify(d)
+    if os.path.exists(os.path.join(d, "verify.json")):
+        v = json.load(open(os.path.join(d, "verify.json")))  # confirmed beforehand (seedtool.py verify, own scratch worktree)
+    else:
+        v = seedtool.verify(d)
     rec = {"id": sid, "property": prop, "summary": meta.get("summary"), "needs": meta.get("needs"), "files_changed": meta.get("files_changed"),
            "demo_place_at": meta.get("demo_place_at"), "demo_cmd": meta.get("demo_cmd"), "confirmed": v, "checks_run": {}, "caught_by": []}
     if v.get("ok"):
